@@ -1,4 +1,5 @@
 import FGVerif.Model.C19
+import FGVerif.Proofs.GraphEdges
 /-!
   C19 — theorems about the model of the RDKit bridge and of the Weisfeiler-Lehman hash
   (Model/C19.lean).  RDKit itself is an assumed contract (see the model's header); the SMILES
@@ -6,11 +7,23 @@ import FGVerif.Model.C19
 
   Proved: `bridge_roundtrip` (bridge = `normalise`), `normalise_semantics` / `bridge_roundtrip_semantics`
   (the normal form described by its nodes and its bond function in terms of `g.edges`),
-  `refuses_labels`, the table obligations, `specCheck_sound`, `wl_invariant` (+ digest / relabel /
-  `mol_compare` corollaries).
-  Not proved (validated on every harness case through `spec_model`): `BridgeSpec ia g (normalise ia g)`,
-  i.e. the step from "the bonds `g.edges` lists" to "the adjacency entries of `g`" — that networkx's
-  edge view (`Graph.edges`, seen-set iteration) lists every adjacency entry of a symmetric graph once.
+  `bridge_spec_holds` (`BridgeSpec ia g (normalise ia g)` for every well-formed simple graph: the
+  adjacency entries of the normal form are exactly the renumbered adjacency entries of `g`; rests on
+  the facts about networkx's seen-set edge view in Proofs/GraphEdges.lean, which reuses the C11
+  lemmas `mem_edges_go`, `edges_good`, `bond_in_edges`), the headline `bridge_lossless` (the
+  property clause for the model: same atoms in the same order with normalised symbols, same
+  bonded pairs with the same orders, same atom-map numbers, nothing else), `refuses_labels`, the
+  table obligations, `specCheck_sound`, `wl_invariant` (+ digest / relabel / `mol_compare`
+  corollaries).
+
+  Nothing is left unproved for the bridge part.  The hypotheses of `bridge_spec_holds` /
+  `bridge_lossless` on the input graph are the decidable predicates `C11.wellFormed g` and
+  `C11.simple g` (Model/C11.lean: distinct node ids, one adjacency row per node in node order,
+  distinct neighbours per row, neighbours are nodes, symmetric edge data, exactly key 0 on every
+  bond) — true of every simple undirected networkx graph; the driver evaluates them on every case
+  (`wf=`) and the harness fails if a generated input violates them.  `edgesClosed` follows from them.
+  Still exercised only (not proved): RDKit's own SMILES writer/reader round trip, and the RWMol
+  contract the model assumes.
 -/
 namespace C19
 
@@ -421,17 +434,13 @@ theorem idxOf_lt {ids : List Int} {u : Int} (h : u ∈ ids) : idxOf ids u < ids.
     obtain ⟨hi, _⟩ := List.findIdx?_eq_some_iff_getElem.1 hf
     simpa using hi
 
-/-- **what the normal form is**, without reference to `add_edge`: a simple graph whose nodes are
-    exactly the renumbered, normalised atoms, with one adjacency row per atom, and in which the
-    bond between two atoms is the label of the (last) edge of `g.edges` between the corresponding
-    atoms of `g` — and no bond where `g.edges` has none -/
-theorem normalise_semantics (ia : Bool) (g : Graph) (hc : edgesClosed g = true) :
-    (normalise ia g).multi = false ∧ (normalise ia g).nodes = normNodes ia g ∧
-    (normalise ia g).adj.map (·.1) = (normNodes ia g).map (·.1) ∧
-    ∀ a b, (normalise ia g).bond? a b =
-      lastLabel (g.edges.map fun e => ((idxOf g.nodeIds e.1 : Int), (idxOf g.nodeIds e.2.1 : Int), e.2.2.2)) a b := by
-  unfold normalise
-  apply fromLists_spec
+/-- the side conditions of `fromLists_spec` for the normal form: the new ids are distinct and every
+    listed bond joins two of them -/
+theorem normalise_side (ia : Bool) (g : Graph) (hc : edgesClosed g = true) :
+    ((normNodes ia g).map (·.1)).Nodup ∧
+    ∀ e ∈ (g.edges.map fun e => ((idxOf g.nodeIds e.1 : Int), (idxOf g.nodeIds e.2.1 : Int), e.2.2.2)),
+      e.1 ∈ (normNodes ia g).map (·.1) ∧ e.2.1 ∈ (normNodes ia g).map (·.1) := by
+  constructor
   · rw [normNodes_ids]
     exact List.Pairwise.map _ (fun a b hab => by omega) (List.nodup_range' (s := 0) (n := g.nodes.length))
   · intro e he
@@ -445,6 +454,18 @@ theorem normalise_semantics (ia : Bool) (g : Graph) (hc : edgesClosed g = true) 
         simp only [List.mem_range'_1]; have := idxOf_lt this.1; omega, rfl⟩
     · exact List.mem_map.2 ⟨idxOf g.nodeIds e0.2.1, by
         simp only [List.mem_range'_1]; have := idxOf_lt this.2; omega, rfl⟩
+
+/-- **what the normal form is**, without reference to `add_edge`: a simple graph whose nodes are
+    exactly the renumbered, normalised atoms, with one adjacency row per atom, and in which the
+    bond between two atoms is the label of the (last) edge of `g.edges` between the corresponding
+    atoms of `g` — and no bond where `g.edges` has none -/
+theorem normalise_semantics (ia : Bool) (g : Graph) (hc : edgesClosed g = true) :
+    (normalise ia g).multi = false ∧ (normalise ia g).nodes = normNodes ia g ∧
+    (normalise ia g).adj.map (·.1) = (normNodes ia g).map (·.1) ∧
+    ∀ a b, (normalise ia g).bond? a b =
+      lastLabel (g.edges.map fun e => ((idxOf g.nodeIds e.1 : Int), (idxOf g.nodeIds e.2.1 : Int), e.2.2.2)) a b := by
+  unfold normalise
+  exact fromLists_spec _ _ (normalise_side ia g hc).1 (normalise_side ia g hc).2
 
 
 /-- the round trip in semantic form: the bridge returns a simple graph with exactly the normalised
@@ -476,6 +497,332 @@ theorem specCheck_sound (ia : Bool) (g : Graph) (out : Except Err Graph) (h : sp
     | ok o => exact ⟨o, rfl, by simpa using h⟩
     | error e => simp at h
 
+/-! ### the adjacency entries of the normal form are exactly the renumbered entries of `g`
+    (`BridgeSpec ia g (normalise ia g)`), through Proofs/GraphEdges.lean -/
+
+theorem mem_adjTriples (g : Graph) (a b : Int) (l : Label) :
+    (a, b, l) ∈ adjTriples g ↔ Graph.HasEntry g a b l := by
+  unfold adjTriples Graph.HasEntry
+  simp only [List.mem_flatMap, List.mem_map, Prod.mk.injEq]
+  constructor
+  · rintro ⟨r, hr, e, he, kd, hkd, h1, h2, h3⟩
+    exact ⟨r, hr, h1, e, he, h2, kd, hkd, h3⟩
+  · rintro ⟨r, hr, h1, e, he, h2, kd, hkd, h3⟩
+    exact ⟨r, hr, e, he, kd, hkd, h1, h2, h3⟩
+
+/-- `e` is a call `add_edge` on the unordered pair `{a, b}` -/
+def OnE (a b : Int) (e : Int × Int × Label) : Prop := (a = e.1 ∧ b = e.2.1) ∨ (a = e.2.1 ∧ b = e.1)
+
+instance (a b : Int) (e : Int × Int × Label) : Decidable (OnE a b e) := by unfold OnE; infer_instance
+
+theorem lastLabel_cons (e : Int × Int × Label) (E : List (Int × Int × Label)) (a b : Int) (init : Option Label) :
+    lastLabel (e :: E) a b init = lastLabel E a b (if OnE a b e then some e.2.2 else init) := rfl
+
+/-- a bond of the result comes from a listed edge on that pair (or was there before) -/
+theorem lastLabel_mem : ∀ (E : List (Int × Int × Label)) (a b : Int) (init : Option Label) (l : Label),
+    lastLabel E a b init = some l → init = some l ∨ ∃ e ∈ E, OnE a b e ∧ e.2.2 = l
+  | [], _, _, _, _, h => .inl h
+  | e :: E, a, b, init, l, h => by
+    rw [lastLabel_cons] at h
+    rcases lastLabel_mem E a b _ l h with h1 | ⟨e', he', hM, hl⟩
+    · by_cases hM : OnE a b e
+      · rw [if_pos hM] at h1
+        exact .inr ⟨e, List.mem_cons_self, hM, Option.some.inj h1⟩
+      · rw [if_neg hM] at h1
+        exact .inl h1
+    · exact .inr ⟨e', List.mem_cons_of_mem _ he', hM, hl⟩
+
+theorem lastLabel_const_init : ∀ (E : List (Int × Int × Label)) (a b : Int) (l : Label),
+    (∀ e ∈ E, OnE a b e → e.2.2 = l) → lastLabel E a b (some l) = some l
+  | [], _, _, _, _ => rfl
+  | e :: E, a, b, l, h => by
+    rw [lastLabel_cons]
+    have ih := lastLabel_const_init E a b l (fun e' he' => h e' (List.mem_cons_of_mem _ he'))
+    by_cases hM : OnE a b e
+    · rw [if_pos hM, h e List.mem_cons_self hM]; exact ih
+    · rw [if_neg hM]; exact ih
+
+/-- when every listed edge on the pair carries `l` and one is listed, the resulting bond is `l` -/
+theorem lastLabel_const : ∀ (E : List (Int × Int × Label)) (a b : Int) (init : Option Label) (l : Label),
+    (∀ e ∈ E, OnE a b e → e.2.2 = l) → (∃ e ∈ E, OnE a b e) → lastLabel E a b init = some l
+  | [], _, _, _, _, _, h => by obtain ⟨e, he, _⟩ := h; simp at he
+  | e :: E, a, b, init, l, h, hex => by
+    rw [lastLabel_cons]
+    have h' : ∀ e' ∈ E, OnE a b e' → e'.2.2 = l := fun e' he' => h e' (List.mem_cons_of_mem _ he')
+    by_cases hM : OnE a b e
+    · rw [if_pos hM, h e List.mem_cons_self hM]
+      exact lastLabel_const_init E a b l h'
+    · rw [if_neg hM]
+      apply lastLabel_const E a b init l h'
+      obtain ⟨e', he', hM'⟩ := hex
+      rcases List.mem_cons.1 he' with rfl | he'
+      · exact absurd hM' hM
+      · exact ⟨e', he', hM'⟩
+
+/-- the atom at position `idx_map[u]` is `u` -/
+theorem idxOf_get? {ids : List Int} {u : Int} (h : u ∈ ids) : ids[idxOf ids u]? = some u := by
+  unfold idxOf
+  cases hf : ids.findIdx? (· == u) with
+  | none =>
+    have := List.findIdx?_eq_none_iff.1 hf u h
+    simp at this
+  | some i =>
+    obtain ⟨hi, hp, _⟩ := List.findIdx?_eq_some_iff_getElem.1 hf
+    simp only [Option.getD_some]
+    rw [List.getElem?_eq_getElem hi]
+    simpa using hp
+
+/-- `idx_map` is injective on the nodes -/
+theorem idxOf_inj {ids : List Int} {u v : Int} (hu : u ∈ ids) (hv : v ∈ ids) (h : idxOf ids u = idxOf ids v) :
+    u = v := by
+  have a := idxOf_get? hu
+  have b := idxOf_get? hv
+  rw [h, b] at a
+  exact (Option.some.inj a).symm
+
+/-- with distinct ids, `idx_map` of the `i`-th node is `i` -/
+theorem idxOf_getElem {ids : List Int} (hnd : ids.Nodup) (i : Nat) (h : i < ids.length) : idxOf ids ids[i] = i := by
+  have hm : ids[i] ∈ ids := List.getElem_mem h
+  have hlt := idxOf_lt hm
+  have hg := idxOf_get? hm
+  rw [List.getElem?_eq_getElem hlt] at hg
+  have hg' : ids[idxOf ids ids[i]] = ids[i] := Option.some.inj hg
+  apply Classical.byContradiction
+  intro hne
+  have hp := List.pairwise_iff_getElem.1 hnd
+  rcases Nat.lt_or_gt_of_ne hne with hlt' | hgt
+  · exact hp _ _ hlt h hlt' hg'
+  · exact hp _ _ h hlt hgt hg'.symm
+
+theorem edgesClosed_of_wf (g : Graph) (hw : C11.WF g) (hs : C11.Simple g) : edgesClosed g = true := by
+  unfold edgesClosed
+  rw [List.all_eq_true]
+  intro e he
+  obtain ⟨a, b, k, l⟩ := e
+  obtain ⟨-, ha, hb, -⟩ := Graph.mem_edges_entry g hw hs he
+  simp [ha, hb]
+
+theorem foldl_addEdge_tidy : ∀ (E : List (Int × Int × Label)) (g : Graph), Simple g → Graph.Tidy g →
+    (∀ e ∈ E, e.1 ∈ g.nodeIds ∧ e.2.1 ∈ g.nodeIds) →
+    Graph.Tidy (E.foldl (fun g e => g.addEdge e.1 e.2.1 e.2.2) g)
+  | [], _, _, ht, _ => ht
+  | e :: E, g, hs, ht, hE => by
+    have he := hE e List.mem_cons_self
+    obtain ⟨hs1, hn1, -⟩ := addEdge_simple hs he.1 he.2 e.2.2
+    have hids : (g.addEdge e.1 e.2.1 e.2.2).nodeIds = g.nodeIds := by simp [Graph.nodeIds, hn1]
+    exact foldl_addEdge_tidy E (g.addEdge e.1 e.2.1 e.2.2) hs1
+      (Graph.addEdge_tidy g e.1 e.2.1 e.2.2 he.1 he.2 hs.multi ht)
+      (fun e' he' => by rw [hids]; exact hE e' (List.mem_cons_of_mem _ he'))
+
+/-- `fromLists` builds a tidy adjacency: distinct row keys, distinct neighbours per row, one key
+    per neighbour -/
+theorem fromLists_tidy (N : List (Int × NodeAttr)) (E : List (Int × Int × Label))
+    (hN : (N.map (·.1)).Nodup) (hE : ∀ e ∈ E, e.1 ∈ N.map (·.1) ∧ e.2.1 ∈ N.map (·.1)) :
+    Graph.Tidy (fromLists N E) := by
+  have hbase : N.foldl (fun g x => g.addNode x.1 x.2) {} = baseGraph N := by
+    rw [foldl_addNode N {} (by simp [Graph.nodeIds]) hN]
+    simp [baseGraph]
+  have hs0 : Simple (baseGraph N) := ⟨rfl, by simp [baseGraph, Graph.nodeIds, Function.comp_def]⟩
+  have ht0 : Graph.Tidy (baseGraph N) := by
+    refine ⟨?_, ?_⟩
+    · simpa [baseGraph, Function.comp_def] using hN
+    · intro r hr
+      simp only [baseGraph, List.mem_map] at hr
+      obtain ⟨x, -, rfl⟩ := hr
+      simp
+  unfold fromLists
+  rw [hbase]
+  exact foldl_addEdge_tidy E (baseGraph N) hs0 ht0 (by simpa [Graph.nodeIds, baseGraph] using hE)
+
+theorem normalise_tidy (ia : Bool) (g : Graph) (hc : edgesClosed g = true) : Graph.Tidy (normalise ia g) := by
+  unfold normalise
+  exact fromLists_tidy _ _ (normalise_side ia g hc).1 (normalise_side ia g hc).2
+
+/-- what `C11.wellFormed` / `C11.simple` say, for the reader of this file: these are the
+    hypotheses of `bridge_spec_holds` and `bridge_lossless` -/
+theorem inputHyp_unfold (g : Graph) :
+    (C11.wellFormed g && C11.simple g) =
+      (decide g.nodeIds.Nodup && g.adj.map (·.1) == g.nodeIds &&
+        g.adj.all (fun r => decide (r.2.map (·.1)).Nodup &&
+          r.2.all fun x => g.nodeIds.contains x.1 && g.edgeData x.1 r.1 == x.2) &&
+       (!g.multi && g.adj.all fun r => r.2.all fun x => x.2.map (·.1) == [0])) := rfl
+
+/-- **the normal form satisfies the semantic specification**: for every well-formed simple
+    undirected graph `g` (the two decidable predicates every simple networkx graph satisfies),
+    the adjacency entries of `normalise ia g` are exactly the adjacency entries of `g`, renumbered,
+    with the same labels, one entry per ordered adjacent pair; the atoms are the normalised atoms of
+    `g` in order.  This closes the step from "the bonds `g.edges` lists" (seen-set iteration) to
+    "the adjacency entries of `g`". -/
+theorem bridge_spec_holds (ia : Bool) (g : Graph) (hwf : C11.wellFormed g = true) (hsi : C11.simple g = true) :
+    BridgeSpec ia g (normalise ia g) := by
+  have hw := C11.wf_of_wellFormed g hwf
+  have hs := C11.simple_of_simple g hw hsi
+  have hc := edgesClosed_of_wf g hw hs
+  obtain ⟨hm, hn, hrows, hbond⟩ := normalise_semantics ia g hc
+  have hto := normalise_tidy ia g hc
+  have htg := Graph.tidy_of_wf g hw hs
+  refine ⟨hm, hn, by rw [hrows, hn], ?_, ?_, hto.rows⟩
+  · -- every entry of the result is a renumbered entry of `g`
+    intro t ht
+    obtain ⟨a, b, l⟩ := t
+    have hb := Graph.bond?_of_hasEntry _ hto ((mem_adjTriples _ a b l).1 ht)
+    rw [hbond] at hb
+    rcases lastLabel_mem _ a b none l hb with h | ⟨e, he, hM, hl⟩
+    · cases h
+    · obtain ⟨e0, he0, rfl⟩ := List.mem_map.1 he
+      obtain ⟨u, v, k, l0⟩ := e0
+      obtain ⟨-, -, -, -, huv, hvu⟩ := Graph.mem_edges_entry g hw hs he0
+      simp only at hl
+      subst hl
+      rcases hM with ⟨h1, h2⟩ | ⟨h1, h2⟩
+      · simp only at h1 h2
+        subst h1 h2
+        exact ⟨(u, v, l0), (mem_adjTriples g u v l0).2 (Graph.hasEntry_of_bond? g huv), rfl⟩
+      · simp only at h1 h2
+        subst h1 h2
+        exact ⟨(v, u, l0), (mem_adjTriples g v u l0).2 (Graph.hasEntry_of_bond? g hvu), rfl⟩
+  · -- every entry of `g` is, renumbered, an entry of the result
+    intro s hs'
+    obtain ⟨u, v, l⟩ := s
+    have hent := (mem_adjTriples g u v l).1 hs'
+    have hb := Graph.bond?_of_hasEntry g htg hent
+    obtain ⟨hu, hv⟩ := Graph.hasEntry_nodes g hw hent
+    apply (mem_adjTriples _ _ _ _).2
+    apply Graph.hasEntry_of_bond?
+    show (normalise ia g).bond? (idxOf g.nodeIds u : Int) (idxOf g.nodeIds v : Int) = some l
+    rw [hbond]
+    apply lastLabel_const
+    · -- every listed edge on this pair of positions is on the pair {u, v}: it carries `l`
+      intro e he hM
+      obtain ⟨e0, he0, rfl⟩ := List.mem_map.1 he
+      obtain ⟨a, b, k, l0⟩ := e0
+      obtain ⟨-, ha, hb', -, hab, hba⟩ := Graph.mem_edges_entry g hw hs he0
+      show l0 = l
+      rcases hM with ⟨h1, h2⟩ | ⟨h1, h2⟩
+      · simp only at h1 h2
+        have e1 := idxOf_inj hu ha (by omega)
+        have e2 := idxOf_inj hv hb' (by omega)
+        subst e1 e2
+        rw [hab] at hb
+        exact Option.some.inj hb
+      · simp only at h1 h2
+        have e1 := idxOf_inj hu hb' (by omega)
+        have e2 := idxOf_inj hv ha (by omega)
+        subst e1 e2
+        rw [hba] at hb
+        exact Option.some.inj hb
+    · obtain ⟨e, he, hp, -⟩ := Graph.exists_onPair g hw hs hb
+      refine ⟨_, List.mem_map.2 ⟨e, he, rfl⟩, ?_⟩
+      rcases (Graph.onPair_iff u v e).1 hp with ⟨h1, h2⟩ | ⟨h1, h2⟩
+      · exact .inl ⟨by simp [h1], by simp [h2]⟩
+      · exact .inr ⟨by simp [h2], by simp [h1]⟩
+
+/-- all atom-map numbers of the input are `≥ 1` (the property's quantifier) -/
+def mapsPositive (g : Graph) : Bool := g.nodes.all fun x => x.2.aam.all fun k => decide (k ≥ 1)
+
+theorem zipIdx_map_fst' {α β : Type} (l : List α) (f : α → β) : (l.zipIdx.map fun x => f x.1) = l.map f := by
+  have : (l.zipIdx.map fun x => f x.1) = (l.zipIdx.map Prod.fst).map f := by
+    rw [List.map_map]; rfl
+  rw [this, List.zipIdx_map_fst]
+
+/-- **the RDKit bridge is lossless** (the property clause, for the model).  For every well-formed
+    simple undirected graph `g` whose nodes all carry a symbol, none of them a labelled placeholder,
+    and whose bonds all have a supported order (1, 1.5, 2, 3, 4), the round trip
+    `mol_to_graph(graph_to_mol(g, ignore_aam))` returns a simple graph `o` with
+    * the same atoms in the same order: ids `0 … n-1`, the `i`-th atom of `o` is the `i`-th atom
+      of `g` (`idxOf g.nodeIds` is the position of an atom of `g`), its symbol the symbol of `g`
+      with the lower-case aromatic symbols normalised to the element;
+    * the same atom-map numbers: those `≥ 1` are kept, `0`/negative ones are dropped (RDKit's
+      "no map"), none with `ignore_aam`; in particular all of them when all are `≥ 1`;
+    * the same bonded pairs with the same orders: the bond between the atoms at the positions of
+      `u` and `v` is the bond of `g` between `u` and `v` (none where `g` has none), every bond of `o`
+      is such a bond and has a supported order; one adjacency row per atom;
+    * and `BridgeSpec` (the same statement on the adjacency entries, applied by the driver to
+      every implementation output). -/
+theorem bridge_lossless (ia : Bool) (g : Graph) (hwf : C11.wellFormed g = true) (hsi : C11.simple g = true)
+    (hsym : allSymbols g = true) (hlab : noLabelNodes g = true) (hsup : supported g = true) :
+    ∃ o, bridge ia g = .ok o ∧
+      o.multi = false ∧ o.adj.map (·.1) = o.nodeIds ∧
+      -- atoms, in order
+      o.nodeIds = (List.range g.nodes.length).map (fun (i : Nat) => (i : Int)) ∧
+      (∀ (i : Nat) (h : i < g.nodeIds.length), idxOf g.nodeIds g.nodeIds[i] = i) ∧
+      o.nodes.map (·.2.symbol) = g.nodes.map (fun x => x.2.symbol.map refNorm) ∧
+      -- atom-map numbers
+      o.nodes.map (·.2.aam) =
+        g.nodes.map (fun x => if ia then none else x.2.aam.filter (fun k => decide (k ≥ 1))) ∧
+      (ia = false → mapsPositive g = true → o.nodes.map (·.2.aam) = g.nodes.map (·.2.aam)) ∧
+      -- bonds
+      (∀ u ∈ g.nodeIds, ∀ v ∈ g.nodeIds,
+        o.bond? (idxOf g.nodeIds u : Int) (idxOf g.nodeIds v : Int) = g.bond? u v) ∧
+      (∀ a b l, o.bond? a b = some l → supportedLabel l = true ∧
+        ∃ u ∈ g.nodeIds, ∃ v ∈ g.nodeIds,
+          a = (idxOf g.nodeIds u : Int) ∧ b = (idxOf g.nodeIds v : Int) ∧ g.bond? u v = some l) ∧
+      BridgeSpec ia g o := by
+  have hw := C11.wf_of_wellFormed g hwf
+  have hs := C11.simple_of_simple g hw hsi
+  have hc := edgesClosed_of_wf g hw hs
+  have hspec := bridge_spec_holds ia g hwf hsi
+  have hto := normalise_tidy ia g hc
+  have htg := Graph.tidy_of_wf g hw hs
+  have hnodes := hspec.nodes
+  -- entries of the result, in terms of `bond?`
+  have hback : ∀ a b l, (normalise ia g).bond? a b = some l →
+      ∃ u ∈ g.nodeIds, ∃ v ∈ g.nodeIds,
+        a = (idxOf g.nodeIds u : Int) ∧ b = (idxOf g.nodeIds v : Int) ∧ g.bond? u v = some l := by
+    intro a b l h
+    obtain ⟨s, hs', ht⟩ := hspec.bonds_sound (a, b, l)
+      ((mem_adjTriples _ a b l).2 (Graph.hasEntry_of_bond? _ h))
+    obtain ⟨u, v, l'⟩ := s
+    simp only [Prod.mk.injEq] at ht
+    obtain ⟨rfl, rfl, rfl⟩ := ht
+    have hent := (mem_adjTriples g u v l).1 hs'
+    obtain ⟨hu, hv⟩ := Graph.hasEntry_nodes g hw hent
+    exact ⟨u, hu, v, hv, rfl, rfl, Graph.bond?_of_hasEntry g htg hent⟩
+  refine ⟨normalise ia g, bridge_roundtrip ia g hsym hlab hsup, hspec.simple, hspec.rows, ?_,
+    fun i h => idxOf_getElem hw.nodup i h, ?_, ?_, ?_, ?_, ?_, hspec⟩
+  · rw [Graph.nodeIds, hnodes, normNodes_ids, List.range_eq_range']
+  · rw [hnodes]; unfold normNodes
+    rw [List.map_map]
+    exact zipIdx_map_fst' g.nodes (fun x => x.2.symbol.map refNorm)
+  · rw [hnodes]; unfold normNodes
+    rw [List.map_map]
+    exact zipIdx_map_fst' g.nodes (fun x => if ia then none else x.2.aam.filter (fun k => decide (k ≥ 1)))
+  · intro hia hpos
+    subst hia
+    rw [hnodes]; unfold normNodes
+    rw [List.map_map]
+    have h2 : g.nodes.map (fun x => x.2.aam.filter (fun k => decide (k ≥ 1))) = g.nodes.map (·.2.aam) := by
+      apply List.map_congr_left
+      intro x hx
+      have := (List.all_eq_true.1 hpos) x hx
+      cases hx' : x.2.aam with
+      | none => rfl
+      | some k => simpa [hx'] using this
+    rw [← h2]
+    exact zipIdx_map_fst' g.nodes (fun x => x.2.aam.filter (fun k => decide (k ≥ 1)))
+  · intro u hu v hv
+    cases hb : g.bond? u v with
+    | some l =>
+      have := hspec.bonds_complete (u, v, l) ((mem_adjTriples g u v l).2 (Graph.hasEntry_of_bond? g hb))
+      exact Graph.bond?_of_hasEntry _ hto ((mem_adjTriples _ _ _ _).1 this)
+    | none =>
+      cases ho : (normalise ia g).bond? (idxOf g.nodeIds u : Int) (idxOf g.nodeIds v : Int) with
+      | none => rfl
+      | some l =>
+        obtain ⟨u', hu', v', hv', h1, h2, hb'⟩ := hback _ _ l ho
+        have e1 := idxOf_inj hu hu' (by omega)
+        have e2 := idxOf_inj hv hv' (by omega)
+        subst e1 e2
+        rw [hb] at hb'; cases hb'
+  · intro a b l h
+    obtain ⟨u, hu, v, hv, h1, h2, hb⟩ := hback a b l h
+    refine ⟨?_, u, hu, v, hv, h1, h2, hb⟩
+    obtain ⟨e, he, -, hl⟩ := Graph.exists_onPair g hw hs hb
+    have := (List.all_eq_true.1 hsup) e he
+    rw [hl] at this
+    exact this
+
+
 /-! ### non-vacuity (tests) -/
 
 /-- `[C:1]` (id 7) aromatic-bonded to `c` with map 2 (id 3), plus an unmapped oxygen (id 5) -/
@@ -502,6 +849,51 @@ example : specCheck false exG (.ok exBad) = false := by decide
 /-- a labelled node is refused -/
 example : (match bridge false { nodes := [(0, { symbol := some "#", labels := some ["alkyl"], isLabeled := some true })] } with
     | .error .valueError => true | _ => false) = true := by decide
+
+/-! non-vacuity of `bridge_spec_holds` / `bridge_lossless` (tests): a five-atom graph with sparse
+    shuffled ids (12, 4, 9, 30, 7), a ring 12–4–9–30 with an aromatic (1.5), a quadruple, a single
+    and a double bond, an isolated atom, atom maps 3, 1, 2 on three atoms; adjacency orders differ
+    from node order -/
+def exH : Graph :=
+  { nodes := [(12, { symbol := some "C", aam := some 3 }), (4, { symbol := some "c", aam := some 1 }),
+              (9, { symbol := some "N" }), (30, { symbol := some "O", aam := some 2 }), (7, { symbol := some "Cl" })],
+    adj := [(12, [(4, [(0, .s 3)]), (30, [(0, .s 4)])]), (4, [(9, [(0, .s 8)]), (12, [(0, .s 3)])]),
+            (9, [(4, [(0, .s 8)]), (30, [(0, .s 2)])]), (30, [(9, [(0, .s 2)]), (12, [(0, .s 4)])]), (7, [])] }
+
+/-- the hypotheses hold on `exH` (and on `exG`) -/
+example : C11.wellFormed exH = true ∧ C11.simple exH = true ∧ allSymbols exH = true ∧ noLabelNodes exH = true ∧
+    supported exH = true ∧ mapsPositive exH = true := by decide
+example : C11.wellFormed exG = true ∧ C11.simple exG = true := by decide
+/-- the seen-set edge view lists each of the four bonds once, two of them from their second end -/
+example : exH.edges = [(12, 4, 0, .s 3), (12, 30, 0, .s 4), (4, 9, 0, .s 8), (9, 30, 0, .s 2)] := by decide
+example : exH.edges.countP (Graph.onPair 30 9) = 1 :=
+  Graph.edges_count_pair exH (C11.wf_of_wellFormed exH (by decide))
+    (C11.simple_of_simple exH (C11.wf_of_wellFormed exH (by decide)) (by decide)) (by decide)
+example : exH.edges.countP (Graph.onPair 30 9) = 1 ∧ exH.edges.countP (Graph.onPair 12 9) = 0 := by decide
+/-- the theorem instantiated, and the same fact re-evaluated by the kernel -/
+example : BridgeSpec false exH (normalise false exH) := bridge_spec_holds false exH (by decide) (by decide)
+example : BridgeSpec true exG (normalise true exG) := bridge_spec_holds true exG (by decide) (by decide)
+example : decide (BridgeSpec false exH (normalise false exH)) = true := by decide
+/-- what `bridge_lossless` yields on `exH`: the quadruple bond 4–9 sits between positions 1 and 2,
+    the aromatic bond 12–4 between 0 and 1, no bond between 12 and 9, the maps are 3, 1, –, 2, – and
+    the aromatic `c` came back as `C` -/
+example : ∃ o, bridge false exH = .ok o ∧ o.bond? 1 2 = some (.s 8) ∧ o.bond? 1 0 = some (.s 3) ∧ o.bond? 0 2 = none ∧
+    o.nodes.map (·.2.aam) = [some 3, some 1, none, some 2, none] ∧
+    o.nodes.map (·.2.symbol) = [some "C", some "C", some "N", some "O", some "Cl"] ∧
+    o.nodeIds = [0, 1, 2, 3, 4] := by
+  obtain ⟨o, hb, -, -, hids, -, hsy, -, haam, hbond, -, -⟩ :=
+    bridge_lossless false exH (by decide) (by decide) (by decide) (by decide) (by decide)
+  refine ⟨o, hb, ?_, ?_, ?_, ?_, ?_, ?_⟩
+  · exact hbond 4 (by decide) 9 (by decide)
+  · exact hbond 4 (by decide) 12 (by decide)
+  · exact hbond 12 (by decide) 9 (by decide)
+  · rw [haam rfl (by decide)]; decide
+  · rw [hsy]; decide
+  · rw [hids]; decide
+/-- the model output on `exH`, evaluated -/
+example : (normalise false exH).adj =
+    [(0, [(1, [(0, .s 3)]), (3, [(0, .s 4)])]), (1, [(0, [(0, .s 3)]), (2, [(0, .s 8)])]),
+     (2, [(1, [(0, .s 8)]), (3, [(0, .s 2)])]), (3, [(0, [(0, .s 4)]), (2, [(0, .s 2)])]), (4, [])] := by decide
 
 /-! ### Weisfeiler-Lehman hash: invariance under renumbering -/
 
